@@ -371,6 +371,58 @@ func TestC07Lifecycle(t *testing.T) {
 				}
 				x.markClosed(l, how+" close")
 			},
+			"takeoverbusy": func(t *rapid.T) {
+				// a newer session takes over the id of an older one that still has a
+				// handler running (its graceful close is in progress), then the older
+				// session's connection is lost: the index must keep the newer session
+				live := x.liveLinks()
+				if len(live) < 2 {
+					t.Skip("needs two live links")
+				}
+				vi := rapid.IntRange(0, len(live)-1).Draw(t, "victim")
+				ni := rapid.IntRange(0, len(live)-2).Draw(t, "newer")
+				if ni >= vi {
+					ni++
+				}
+				victim, newer := live[vi], live[ni]
+				how := rapid.SampledFrom([]string{"cut", "remote", "none"}).Draw(t, "lose")
+				x.logf("takeover-busy: #%d takes id %q of #%d while its handler runs; then %s", newer.n, victim.id, victim.n, how)
+				nt = true
+				rid := fmt.Sprintf("busy%d-%d", victim.n, victim.calls)
+				victim.calls++
+				entered, release := x.lib.Gate(rid)
+				cmd := victim.cli.AsyncCall(x.route, &LibArg{Rid: rid, Act: "slow", Val: rid}, new(LibRes), make(chan erpc.CallCmd, 1))
+				if !vt.WaitClosed(entered) {
+					release()
+					x.fail("%s", vt.Hang("entry of the gated handler"))
+				}
+				setDone := make(chan struct{})
+				go func() { newer.srv.SetID(victim.id); close(setDone) }() // blocks until the older session's graceful close ends
+				newer.id = victim.id
+				victim.live = false
+				if !vt.WaitClosed(victim.srv.CloseNotify()) {
+					release()
+					x.fail("%s", vt.Hang("close notification of the session whose id was taken over"))
+				}
+				switch how {
+				case "cut":
+					victim.link.Pair.Cut()
+				case "remote":
+					go victim.cli.Close()
+				}
+				// while the older session is still winding down, the id belongs to the newer one
+				vt.WaitUntilFor(3*time.Millisecond, func() bool { _, ok := x.srv.GetSession(newer.id); return !ok })
+				if s, ok := x.srv.GetSession(newer.id); !ok || interface{}(s) != interface{}(newer.srv) {
+					release()
+					x.fail("after session #%d took over id %q and the older session #%d lost its connection, GetSession(%q) no longer returns the live newer session", newer.n, newer.id, victim.n, newer.id)
+				}
+				release()
+				if !vt.WaitClosed(setDone) {
+					x.fail("%s", vt.Hang("return of SetID after the older session finished closing"))
+				}
+				vt.WaitClosed(cmd.Done())
+				x.markClosed(victim, "id taken over while busy")
+			},
 			"raceclose": func(t *rapid.T) {
 				// a local Close concurrently with a disconnect (remote close or cut)
 				live := x.liveLinks()
